@@ -85,9 +85,43 @@ def check(rep, an, tier):
                 R.rule_extent_coincidence(rep, res, entry=name)
                 R.rule_index_space(rep, res, entry=name)
                 R.rule_display_neutral(rep, res, entry=name)
+                R.rule_iter_arrays_per_sample(rep, res, entry=name)
                 R.rule_type_errors(rep, res, "SHAPE", "R-STACK", name) if cfg["bs"] != "sym" else None
                 flow_params(rep, res, name, cfg)
                 bad_kwargs(rep, res, name)
+    # the attained error of a preliminary fit may be handed over as ONE number: it is the slack of every sample
+    d0 = {n: AXES[n][0][0] for n in AXES}
+    for bs in ("sym", 1):
+        cfg = dict(d0, bs=bs)
+        kw = lsq_inputs(K=cfg["K"], baseline=cfg["baseline"], W=cfg["W"], lb=cfg["lb"], ub="finite", bs=bs)
+        kw.update(base_kws())
+        kw.update(Epsilon=none(), norm=num("norm", U_REL, sign="NONNEG"), l2_eps=num("l2_eps", U_REL, sign="POS"),
+                  l1_eps=num("l1_eps", U_INT, sign="POS"), L1=none())
+        res = an.run(f"{LSQ}:lsq_linear_minimize", kws=kw, config=cfgname(dict(cfg, norm="number")))
+        R.rule_iter_arrays_per_sample(rep, res, entry="lsq_linear_minimize")
+        R.rule_type_errors(rep, res, "SHAPE", "R-STACK", "lsq_linear_minimize") if bs != "sym" else None
+    # the underdetermined fit accepts batch_size: either it declines every size but 1 (as the pinned tree does, by assertion) or its batched
+    # formulation is separable like the others — checked for every named secondary objective
+    for opt in ("l2", "min", "max", "var"):
+        kw = lsq_inputs(K=d0["K"], baseline=d0["baseline"], W=d0["W"], lb=d0["lb"], ub="finite", bs="sym")
+        kw.update(base_kws())
+        kw.update(underdetermined_opt=strv("underdetermined_opt", opt), l2_eps=num("l2_eps", U_REL, sign="POS"))
+        name = f"lsq_linear_underdetermined[{opt}]"
+        try:
+            res = an.run(f"{LSQ}:lsq_linear_underdetermined", kws=kw, config=cfgname(dict(d0, bs="sym", opt=opt)))
+        except AnalysisError:
+            continue
+        solved = [e_ for e_ in res.events("solve")]
+        # `assert batch_size == 1` that the configuration (some other batch size) cannot satisfy: the entry declines
+        declines = [e_ for e_ in res.events("assert") if e_.fn.name == "lsq_linear_underdetermined" and e_.d["truth"] is not True
+                    and "batch_size" in e_.text().split(",")[0]]
+        if declines or not solved or not res.events("return"):
+            rep.holds("R-SEP", "underdetermined fit: batched formulation separable, or other batch sizes declined", where=res.fn.loc(),
+                      construct=f"batch_size ≠ 1 with option '{opt}'", entry=name, config=res.config, msg="declined (no batched problem is solved)")
+            continue
+        R.rule_stack(rep, res, entry=name)
+        R.rule_sep(rep, res, entry=name)
+        R.rule_rowsep(rep, res, entry=name)
     dispatch_batch_size(rep, an)
     # frozen minimums confirmed by hand on the pinned tree (quick tier counts)
     rep.require("R-STACK", 20)
